@@ -25,7 +25,15 @@ class Slot:
 
 class Tpl:
     def __init__(self, parts=None):
-        self.parts: List[Union[str, Slot]] = list(parts or [])
+        merged: List[Union[str, Slot]] = []
+        for p in (parts or []):
+            if isinstance(p, str) and merged and isinstance(merged[-1], str):
+                merged[-1] = merged[-1] + p
+            elif isinstance(p, str) and p == "":
+                continue
+            else:
+                merged.append(p)
+        self.parts: List[Union[str, Slot]] = merged
         self.missing: List[str] = []      # placeholders without a bound value
         self.unused: List[str] = []       # keys passed to format but not used by the template
         self.formatted = False
